@@ -154,12 +154,6 @@ theorem as_update_spec (pm : PM F) (ρ c : F) (pop : List (Ind F)) (hwf : pm.wf 
 example : ∃ pm', asUpdate (PM.new 3 (2 : Int)) 0 6 [⟨[0, 1, 2], some 1⟩, ⟨[0, 2, 1], some 3⟩] = some pm' ∧
     pm'.get? 2 1 = some 4 ∧ pm'.get? 0 1 = some 2 := by decide
 
-/-- Known finding: with no sampled ant (`num_ants = 0`, a value every constructor accepts) the population
-holds the greedy route only, `skip(1).min_by_key(..)` is `None` and `MinMaxPheromoneUpdate` panics. -/
-theorem mmas_no_ants_panics (pm : PM F) (ρ hi lo : F) (g : Ind F) :
-    mmasUpdate pm ρ hi lo [g] = none := by
-  simp [mmasUpdate, firstMin]
-
 end updates
 
 section field
@@ -197,37 +191,34 @@ example : (0 : ℚ) ≤ asSpec (PM.new 3 (1 / 2 : ℚ)) 1 3 [⟨[0, 1, 2], some 
   pheromone_nonneg _ _ _ _ _ _ ⟨by norm_num, by norm_num⟩ (by norm_num)
     (by intro ind h; simp at h; subst h; exact ⟨5, rfl, by norm_num⟩) (by simp [PM.getD, PM.get?, PM.row?, PM.new])
 
-/-- Max-min update (partial: at least one sampled, evaluated individual — see `mmas_no_ants_panics` for the
-excluded region): it does not panic, rewards an individual of least objective value among the individuals
-but the first, and every entry is `clamp(min, max, (1 - ρ)·τ_ij + deposits of that individual at 1/length)`. -/
-theorem mmas_update_spec_partial (pm : PM F) (ρ hi lo : F) (pop : List (Ind F)) (hwf : pm.wf = true)
-    (hants : 2 ≤ pop.length) (ho : ∀ ind ∈ pop.drop 1, ind.obj.isSome = true)
+/-- Max-min update, for every number of sampled individuals (including none): it does not panic, keeps the
+shape, and every entry is `mmasSpec`: `clamp(min, max, (1 - ρ)·τ_ij + deposits)`, where the deposits are those
+of an individual of least objective value among the individuals but the first, at `1 / length` — and there are
+no deposits at all when the population holds the greedy route only (`num_ants = 0`: evaporate and clamp). -/
+theorem mmas_update_spec (pm : PM F) (ρ hi lo : F) (pop : List (Ind F)) (hwf : pm.wf = true)
+    (ho : ∀ ind ∈ pop.drop 1, ind.obj.isSome = true)
     (hr : routesValid pm.dim (pop.drop 1) = true) (hb : lo ≤ hi) :
-    ∃ best o pm', firstMin (pop.drop 1) = some (best, o) ∧ best ∈ pop.drop 1 ∧ best.obj = some o ∧
-      (∀ x ∈ pop.drop 1, ∀ v, x.obj = some v → o ≤ v) ∧
-      mmasUpdate pm ρ hi lo pop = some pm' ∧ pm'.dim = pm.dim ∧ pm'.wf = true ∧
-      ∀ i j, i < pm.dim → j < pm.dim →
-        pm'.get? i j = some (clamp lo hi (depositEdges (1 / o) i j (edges best.route) (pm.getD i j 0 * (1 - ρ)))) := by
-  have hne : pop.drop 1 ≠ [] := by
-    intro h
-    have := congrArg List.length h
-    simp at this
-    omega
-  obtain ⟨⟨best, o⟩, hmin⟩ := Option.isSome_iff_exists.mp (firstMin_isSome _ hne ho)
-  obtain ⟨hmem, hobj⟩ := firstMin_mem _ best o hmin
-  have hroute : ∀ c ∈ best.route, c < pm.dim := (routesValid_iff _ _).mp hr best hmem
-  obtain ⟨pm', h1, hd, hw, hg⟩ := mmasUpdate_spec pm ρ hi lo pop hwf best o hmin hroute hb
-  refine ⟨best, o, pm', hmin, hmem, hobj, firstMin_le _ best o hmin, h1, hd, hw, ?_⟩
-  intro i j hi' hj'
-  rw [hg i j hi' hj']
-  simp only [mmasSpec, hmin]
+    ∃ pm', mmasUpdate pm ρ hi lo pop = some pm' ∧ pm'.dim = pm.dim ∧ pm'.wf = true ∧
+      (∀ i j, i < pm.dim → j < pm.dim → pm'.get? i j = some (mmasSpec pm ρ hi lo pop i j)) ∧
+      ((pop.drop 1 = [] ∧ ∀ i j, mmasSpec pm ρ hi lo pop i j = clamp lo hi (pm.getD i j 0 * (1 - ρ))) ∨
+       (∃ best o, firstMin (pop.drop 1) = some (best, o) ∧ best ∈ pop.drop 1 ∧ best.obj = some o ∧
+          (∀ x ∈ pop.drop 1, ∀ v, x.obj = some v → o ≤ v) ∧
+          ∀ i j, mmasSpec pm ρ hi lo pop i j =
+            clamp lo hi (depositEdges (1 / o) i j (edges best.route) (pm.getD i j 0 * (1 - ρ))))) := by
+  by_cases hne : pop.drop 1 = []
+  · obtain ⟨pm', h1, hd, hw, hg⟩ := mmasUpdate_spec_nil pm ρ hi lo pop hwf hne hb
+    exact ⟨pm', h1, hd, hw, hg, Or.inl ⟨hne, fun i j => by simp only [mmasSpec, hne, firstMin]⟩⟩
+  · obtain ⟨⟨best, o⟩, hmin⟩ := Option.isSome_iff_exists.mp (firstMin_isSome _ hne ho)
+    obtain ⟨hmem, hobj⟩ := firstMin_mem _ best o hmin
+    have hroute : ∀ c ∈ best.route, c < pm.dim := (routesValid_iff _ _).mp hr best hmem
+    obtain ⟨pm', h1, hd, hw, hg⟩ := mmasUpdate_spec pm ρ hi lo pop hwf best o hmin hroute hb
+    exact ⟨pm', h1, hd, hw, hg, Or.inr ⟨best, o, hmin, hmem, hobj, firstMin_le _ best o hmin,
+      fun i j => by simp only [mmasSpec, hmin]⟩⟩
 
-/-- The full (unrestricted) statement — FALSE for populations without a sampled individual
-(`mmas_no_ants_panics`); kept so that the gap stays visible. -/
-def mmas_update_total : Prop :=
-  ∀ (pm : PM F) (ρ hi lo : F) (pop : List (Ind F)), pm.wf = true → pop ≠ [] →
-    (∀ ind ∈ pop.drop 1, ind.obj.isSome = true) → routesValid pm.dim (pop.drop 1) = true → lo ≤ hi →
-    (mmasUpdate pm ρ hi lo pop).isSome = true
+/-- No sampled ant: the max-min update evaporates and clamps (here 100 · 1/2 = 50, clamped to 5). -/
+example : ∃ pm', mmasUpdate (PM.new 3 (100 : ℚ)) (1 / 2) 5 1 [⟨[0, 1, 2], some 4⟩] = some pm' ∧
+    pm'.get? 0 1 = some 5 ∧ pm'.get? 2 2 = some 5 := by
+  refine ⟨_, rfl, ?_, ?_⟩ <;> decide +kernel
 
 /-- After the max-min update EVERY trail lies within `[min, max]` — whatever the old matrix was, whichever
 route was rewarded (this is what the `fix:` commit established: the whole matrix is clamped). -/
@@ -235,18 +226,14 @@ theorem mmas_within_bounds (pm : PM F) (ρ hi lo : F) (pop : List (Ind F)) (pm' 
     (h : mmasUpdate pm ρ hi lo pop = some pm') :
     (∀ x ∈ pm'.inner, lo ≤ x ∧ x ≤ hi) ∧ ∀ i j x, pm'.get? i j = some x → lo ≤ x ∧ x ≤ hi := by
   have hall : ∀ x ∈ pm'.inner, lo ≤ x ∧ x ≤ hi := by
-    simp only [mmasUpdate] at h
-    split at h
-    · simp at h
-    · split at h
-      · simp at h
-      · simp only [hb, if_true] at h
-        injection h with h
-        subst h
-        intro x hx
-        simp only [List.mem_map] at hx
-        obtain ⟨y, _, rfl⟩ := hx
-        exact clamp_bounds lo hi y hb
+    obtain ⟨pm2, h2⟩ := mmasUpdate_cases pm ρ hi lo pop pm' h
+    simp only [clampStage, hb, if_true] at h2
+    injection h2 with h2
+    subst h2
+    intro x hx
+    simp only [List.mem_map] at hx
+    obtain ⟨y, _, rfl⟩ := hx
+    exact clamp_bounds lo hi y hb
   exact ⟨hall, fun i j x hx => hall x (get?_mem pm' hx)⟩
 
 example : ∃ pm', mmasUpdate (PM.new 3 (100 : ℚ)) (1 / 2) 5 1 [⟨[0, 1, 2], some 4⟩, ⟨[0, 2, 1], some 5⟩] = some pm' ∧
@@ -300,22 +287,27 @@ theorem holds_as_update (N : Num F) (hfin : ∀ x, N.fin x = true) (hclose : ∀
       simpa using (allEntries_iff _ _).mp this i hi j hj
 
 
-/-- The same for the max-min update (partial: at least one sampled individual), including the bound clause. -/
-theorem holds_mmas_update_partial (N : Num F) (hfin : ∀ x, N.fin x = true)
+/-- The same for the max-min update — for every number of sampled individuals, including none — with the
+bound clause. -/
+theorem holds_mmas_update (N : Num F) (hfin : ∀ x, N.fin x = true)
     (hclose : ∀ a b, N.close a b = decide (a = b))
-    (pm : PM F) (ρ hi lo : F) (pop : List (Ind F)) (hwf : pm.wf = true) (hants : 2 ≤ pop.length)
+    (pm : PM F) (ρ hi lo : F) (pop : List (Ind F)) (hwf : pm.wf = true)
     (hr : routesValid pm.dim (pop.drop 1) = true) (ho : ∀ ind ∈ pop.drop 1, ind.obj.isSome = true)
     (hlo : 0 ≤ lo) (hb : lo ≤ hi) :
     ∃ pm', mmasUpdate pm ρ hi lo pop = some pm' ∧ holdsMmas N pm ρ hi lo pop pm' = true := by
-  obtain ⟨best, o, pm', hmin, hmem, hobj, hle, h1, hd, hw, hg⟩ :=
-    mmas_update_spec_partial pm ρ hi lo pop hwf hants ho hr hb
+  obtain ⟨pm', h1, hd, hw, hg, hchar⟩ := mmas_update_spec pm ρ hi lo pop hwf ho hr hb
   refine ⟨pm', h1, ?_⟩
-  have hspec : ∀ i j, mmasSpec pm ρ hi lo pop i j =
-      clamp lo hi (depositEdges (1 / o) i j (edges best.route) (pm.getD i j 0 * (1 - ρ))) := by
-    intro i j; simp only [mmasSpec, hmin]
+  -- in both cases the entry is a clamped value that depends symmetrically on `(i, j)`
+  obtain ⟨g, hspec, hgsym⟩ : ∃ g : Nat → Nat → F → F,
+      (∀ i j, mmasSpec pm ρ hi lo pop i j = clamp lo hi (g i j (pm.getD i j 0 * (1 - ρ)))) ∧
+      ∀ i j x, g i j x = g j i x := by
+    rcases hchar with ⟨_, hs⟩ | ⟨best, o, _, _, _, _, hs⟩
+    · exact ⟨fun _ _ x => x, hs, fun _ _ _ => rfl⟩
+    · exact ⟨fun i j x => depositEdges (1 / o) i j (edges best.route) x, hs,
+        fun i j x => depositEdges_symm _ i j _ x⟩
   have hget : ∀ i j, i < pm.dim → j < pm.dim → ∀ d, pm'.getD i j d = mmasSpec pm ρ hi lo pop i j :=
-    fun i j hi' hj' d => by rw [hspec]; exact getD_of_get? pm' (hg i j hi' hj')
-  have hbnd := fun i j => clamp_bounds lo hi (depositEdges (1 / o) i j (edges best.route) (pm.getD i j 0 * (1 - ρ))) hb
+    fun i j hi' hj' d => getD_of_get? pm' (hg i j hi' hj')
+  have hbnd := fun i j => clamp_bounds lo hi (g i j (pm.getD i j 0 * (1 - ρ))) hb
   simp only [holdsMmas, Bool.and_eq_true, beq_iff_eq, allEntries_iff, Bool.or_eq_true, Bool.not_eq_true',
     decide_eq_true_eq, isSym, withinBounds, hclose, hfin]
   refine ⟨⟨⟨⟨hd, hw⟩, ?_⟩, ?_⟩, ?_⟩
@@ -332,7 +324,7 @@ theorem holds_mmas_update_partial (N : Num F) (hfin : ∀ x, N.fin x = true)
     · right
       rw [hd]
       intro i hi' j hj'
-      rw [hget i j hi' hj', hget j i hj' hi', hspec, hspec, hs i hi' j hj', depositEdges_symm]
+      rw [hget i j hi' hj', hget j i hj' hi', hspec, hspec, hs i hi' j hj', hgsym]
     · left
       by_contra hcon
       apply hs
@@ -340,7 +332,6 @@ theorem holds_mmas_update_partial (N : Num F) (hfin : ∀ x, N.fin x = true)
         simpa using hcon
       intro i hi' j hj'
       simpa using (allEntries_iff _ _).mp this i hi' j hj'
-
 
 /-- In exact arithmetic generation cannot panic on any reachable state: with non-negative trails, positive
 distances between distinct cities, a `pow` that maps non-negative bases to non-negative values and the
@@ -391,8 +382,14 @@ example : ∃ pm', asUpdate (PM.new 3 (1 / 2 : ℚ)) (1 / 10) 6 [⟨[0, 1, 2], s
 
 example : ∃ pm', mmasUpdate (PM.new 3 (1 / 2 : ℚ)) (1 / 10) 5 1 [⟨[0, 1, 2], some 4⟩, ⟨[0, 2, 1], some 5⟩] = some pm' ∧
     holdsMmas ratNum (PM.new 3 (1 / 2 : ℚ)) (1 / 10) 5 1 [⟨[0, 1, 2], some 4⟩, ⟨[0, 2, 1], some 5⟩] pm' = true :=
-  holds_mmas_update_partial ratNum (fun _ => rfl) (fun _ _ => rfl) _ _ _ _ _ rfl (by simp) (by decide)
+  holds_mmas_update ratNum (fun _ => rfl) (fun _ _ => rfl) _ _ _ _ _ rfl (by decide)
     (by intro ind h; simp at h; subst h; rfl) (by norm_num) (by norm_num)
+
+/-- ... and with no sampled individual at all (`num_ants = 0`). -/
+example : ∃ pm', mmasUpdate (PM.new 3 (1 / 2 : ℚ)) 1 5 1 [⟨[0, 1, 2], some 4⟩] = some pm' ∧
+    holdsMmas ratNum (PM.new 3 (1 / 2 : ℚ)) 1 5 1 [⟨[0, 1, 2], some 4⟩] pm' = true :=
+  holds_mmas_update ratNum (fun _ => rfl) (fun _ _ => rfl) _ _ _ _ _ rfl (by decide)
+    (by intro ind h; simp at h) (by norm_num) (by norm_num)
 
 example : generate ratNum (PM.new 3 (1 / 2 : ℚ)) (fun i j => if i = j then 0 else 7) 1 5 3 1 [[1, 0]] ≠ .panic :=
   generation_never_panics ratNum (fun _ => rfl) (fun _ _ h => h) (by norm_num [ratNum]) _ rfl (by decide)
@@ -400,11 +397,5 @@ example : generate ratNum (PM.new 3 (1 / 2 : ℚ)) (fun i j => if i = j then 0 e
     (by intro i j h; simp [h]) _ _ _ _
 
 end field
-
-/-- Counterexample for the recorded finding: valid parameters (`ρ = 0`, `0 ≤ min = 1 < max = 2`), a valid
-matrix, the population `AcoGeneration` produces for `num_ants = 0` — the update property fails (panic). -/
-theorem mmas_no_ants_violates :
-    holdsUpdRun intNum (.mmas 0 2 1) (PM.new 2 1) [⟨[0, 1], some 3⟩]
-      (update (.mmas 0 2 1) (PM.new 2 1) [⟨[0, 1], some 3⟩]) = false := by decide
 
 end MahfModel.Props.C19
